@@ -241,6 +241,20 @@ def method_oracle(ctx):
                     sample_reqs.append((ids, rr, rn, name))
                 # ordering only permutes the unordered result (entity queries)
                 check('order-permutes', sorted(o.id for o in q0[:]), sorted(ids), [])
+            # first() of an UNORDERED tuple projection orders by every column: the smallest row of the full result
+            for nm, mkq, pyrow in [('(k, m)', lambda: select((g.k, g.m) for g in G), lambda o: (o.k, o.m)),
+                                   ('(m, k, id)', lambda: select((g.m, g.k, g.id) for g in G), lambda o: (o.m, o.k, o.id)),
+                                   ('(k, s)', lambda: select((g.k, g.s) for g in G), lambda o: (o.k, o.s)),
+                                   ('(k, m) filtered', lambda: select((g.k, g.m) for g in G if g.k >= 1), lambda o: (o.k, o.m) if o.k >= 1 else None),
+                                   ('(m,) + id', lambda: select((g.m, g.id) for g in G), lambda o: (o.m, o.id))]:
+                rowsP = sorted(r for r in (pyrow(o) for o in G.select()) if r is not None)
+                try: got = mkq().first()
+                except Exception as e: got = 'raised ' + type(e).__name__
+                ctx.case(['first-tuple', nm, n], kind='oracle:first-tuple')
+                exp = rowsP[0] if rowsP else None
+                if got != exp:
+                    ctx.violation('first() of an unordered tuple query is not the smallest row of its result (it must order by every column)',
+                                  {'query': 'select(%s for g in G).first()' % nm, 'rows': rowsP}, observed=got, expected=exp, key='first-tuple:%s' % nm)
             # known finding: ordering drops the inferred DISTINCT of a non-entity projection
             unordered = select(g.k for g in G)[:]
             ordered = select(g.k for g in G).order_by(1)[:]
